@@ -44,6 +44,10 @@ def rejects_nonpositive(txt, p):
 
 
 def run(repo, res):
+    from . import wiring
+
+    res.rule("R35.6", "no public parameter is accepted and silently ignored: every named parameter of the dating entry points, method constructors/run methods and preprocessing helpers is read (forwarded, validated or stored)")
+    wiring.run(repo, res, "R35.6")
     res.rule("R35.1", "each invalid parameter class of the statement is rejected by a guard raising ValueError/NotImplementedError placed in the shared constructor / method entry (mutation_rate > 0, min_branch_length > 0, constr_iterations non-negative int, max_iterations > 0, max_shape >= 1, unknown method, unused population_size/priors, eps and no-mutations for variational_gamma)")
     res.rule("R35.2", "interval propagation of pure copies of public parameters: every assert on the API call graph whose condition compares such a value with literals is implied by the guards on each flow (NaN-aware); otherwise that input raises AssertionError")
     res.rule("R35.3", "E2: no definite numba-signature mismatch at any kernel call site reachable from date()/the named methods")
@@ -226,7 +230,7 @@ def _handled_by_encloser(repo, f, exc_name):
     return calls > 0
 
 
-VARIANTS = [
+VARIANTS = [dict(v, rule="R35.6") for v in __import__("sa.rules.wiring", fromlist=["VARIANTS"]).VARIANTS] + [
     dict(name="no-rate-guard", mod="core", expect="fire", rule="R35.1",
          old="        if mutation_rate is not None and not mutation_rate > 0.0:\n            raise ValueError(\"Mutation rate must be positive\")\n", new=""),
     dict(name="rate-guard-le", mod="core", expect="fire", rule="R35.1",
